@@ -529,6 +529,13 @@ pub fn run(r: &mut Runner) -> &'static str {
                 }
             }
         }
+        // byte slices (and TLV values, sections) whose content is a complete v2 header that describes its own size, at every
+        // size from just below to just above the 16-bit limit and the limit plus the fixed part
+        for len in (65530usize..=65556).chain([16, 28, 232, 4096]) {
+            for v in [Val::Bytes { len, seed: crate::engine::SEED_V2HEADER }, Val::Tlv { kind: 0xEA, len, seed: crate::engine::SEED_V2HEADER }, Val::Section { len, seed: crate::engine::SEED_V2HEADER }] {
+                cases.push(Case { val: v, prefill_len: 0, prefill_seed: 4, head: None });
+            }
+        }
         for c in cases {
             if let Err(f) = judge(&c, st) {
                 return Some((c, f));
@@ -536,7 +543,7 @@ pub fn run(r: &mut Runner) -> &'static str {
         }
         None
     };
-    r.bulk("c20.sweep", Some("12 integer types x 8 extreme images x 2 prefills; 12 Type codes x 6 lengths; 256 TLV kind bytes x 3 lengths x 2 spellings; size boundaries 65534..70000 x 4 kinds x 3 prefills"), &work, &judge);
+    r.bulk("c20.sweep", Some("12 integer types x 8 extreme images x 2 prefills; 12 Type codes x 6 lengths; 256 TLV kind bytes x 3 lengths x 2 spellings; size boundaries 65534..70000 x 4 kinds x 3 prefills; self-describing v2 headers of 65530..=65556 bytes as slice / TLV value / section"), &work, &judge);
     // byte buffers held as arrays, vectors and boxes, at the sizes around the limits
     let hold = |shard: usize, _n: usize, st: &mut Stats, _stop: &AtomicBool| -> Option<(Case, Fail)> {
         if shard != 0 {
